@@ -35,11 +35,15 @@ inductive MkErr where
   | os (e : FErr)
 deriving Repr, DecidableEq, BEq
 
+/-- `isExistRoot(roots)`: does any root exist already -/
+def anyRootExists (fs : FS) (target : Bytes) (roots : List (List Visit)) : Bool :=
+  roots.any (fun vs => match vs.head? with
+      | some r => rootExists fs target r.path
+      | none => false)
+
 /-- `defaultMkdirerSimple.mkdir` on grown roots (each given by its visits) -/
 def mkdirRoots (fs : FS) (target : Bytes) (exts : List Bytes) (roots : List (List Visit)) : FS × Option MkErr :=
-  if roots.any (fun vs => match vs.head? with
-      | some r => rootExists fs target r.path
-      | none => false) then (fs, some .exist)
+  if anyRootExists fs target roots then (fs, some .exist)
   else
     let rec go (fs : FS) : List (List Visit) → FS × Option MkErr
       | [] => (fs, none)
